@@ -36,4 +36,13 @@ theorem withStart_never_finite (sp : VSpec) (e : Int) (starts : List Int) (v : V
 
 example : applyChain3 (.opqN .memo 1) ([-3, 0, 5, 2, maxInt].map .withStart) = some (.opqS .memo maxInt) := by decide
 
+/-- tie 1: the exported functions that must traverse their argument to the end — `Backward` users,
+`Fwrite`, `AsString` — accept a `FiniteSequence` only, in the source of v3 today (widening one of
+them to `Sequence` would let an unbounded sequence in; no value's dynamic type would change) -/
+theorem traversing_functions_take_finite_sequences_only :
+    Gen.V3.finiteOnlyFunctions =
+      ["AsString", "BackwardMatches", "DigitsToString", "FindAll", "FindLast", "FindLastN", "FindR",
+       "Fwrite", "Swrite", "Write"] := by
+  decide
+
 end Sqroot.Props.C17
